@@ -192,12 +192,16 @@ theorem pf_error (st : Funcs.ParseSt) (v : List UInt8) :
   pf_reduce
   all_goals (cases h : (unmErrM v st.e).2 <;> simp [h])
 
-theorem pf_params (st : Funcs.ParseSt) (v : List UInt8) :
+theorem fbM_nil : fbM [] = 0 := by decide
+
+/-- (`st.p = []`: each key occurs once in a map, so the field still has its reset value when the
+`params` member is met - a refactoring may rely on that) -/
+theorem pf_params (st : Funcs.ParseSt) (v : List UInt8) (hp0 : st.p = []) :
     pf st kParams v =
       (let st' := if !Funcs.isNull v then { st with p := v } else st
        if (fbM st'.p != 0 && fbM st'.p != 91) && fbM st'.p != 123 then Funcs.psFail st' Consts.InvalidRequest else st') := by
   pf_reduce
-  all_goals (cases h : Funcs.isNull v <;> simp [h])
+  all_goals (cases h : Funcs.isNull v <;> simp [h, hp0, fbM_nil])
 
 theorem pf_other (st : Funcs.ParseSt) (k v : List UInt8) (hk : knownKeys.contains k = false) :
     pf st k v = { st with extra := st.extra ++ [k] } := by
@@ -333,8 +337,8 @@ theorem Inv_step (l : List (List UInt8 × List UInt8)) (st : Funcs.ParseSt) (k v
         | (have h2 := hes _ hE; simp [hnone, scanID_none, scanString_none, scanParams_none, scanError_none] at h2; rcases h2 with h | h | h | h <;> simp [h]; done)
   by_cases k4 : k = kParams
   · subst k4
-    rw [pf_params, isNull_matches]
     have hp0 : st.p = [] := by simpa [hnone, scanParams_none] using hp
+    rw [pf_params st v hp0, isNull_matches]
     have hsp : scanParams (some v) =
         ((if Wire.isNull v then [] else v),
          (if (Jrpc.Json.firstByte (if Wire.isNull v then [] else v) != 0 && Jrpc.Json.firstByte (if Wire.isNull v then [] else v) != 91 &&
@@ -417,6 +421,9 @@ theorem parsePost_agrees (l : List (List UInt8 × List UInt8)) (st : Funcs.Parse
     rw [← hxb]
     cases st.extra <;> simp [GoLen.len]
     omega
+  have hxb'' : ((GoLen.len st.extra : Int) == 0) = !(l.any unknownKey) := by
+    rw [← hxb]
+    simp [bne]
   have hpost : ∀ s : Funcs.ParseSt, (Funcs.parsePost s).v = s.v ∧ (Funcs.parsePost s).id = s.id ∧ (Funcs.parsePost s).m = s.m ∧
       (Funcs.parsePost s).p = s.p ∧ (Funcs.parsePost s).e = s.e ∧ (Funcs.parsePost s).r = s.r ∧ (Funcs.parsePost s).extra = s.extra := by
     intro s
@@ -434,7 +441,7 @@ theorem parsePost_agrees (l : List (List UInt8 × List UInt8)) (st : Funcs.Parse
     simp only [version_matches]
     cases hE : st.err <;> cases hev : st.e <;> cases hrr : st.r <;> cases hmm : st.m <;>
       by_cases hvv : st.v = ([50, 46, 48] : List UInt8) <;> cases hany : l.any unknownKey <;>
-      simp [psFail_fields, hE, hev, hrr, hmm, hvv, hxb, hany, GoNil.isNil, hI, Funcs.psFail, hver, hxb']
+      simp [psFail_fields, hE, hev, hrr, hmm, hvv, hxb, hany, GoNil.isNil, hI, Funcs.psFail, hver, hxb', hxb'']
   refine ⟨by rw [p1, jv], by rw [p2, jid], by rw [p3, jm], by rw [p4, jp], by rw [p5, je], by rw [p6, jr], ?_, ?_, ?_⟩
   · rw [p7, jx]; exact hx
   · rw [herr, parseObject_errs, jv, jm, je, jr, jx]
